@@ -34,10 +34,11 @@ ItemCases == { [kind |-> "item", item |-> i, withname |-> w] : i \in OtherItems,
 \* (c) dependency parameter shapes
 TyShapes == { [wrap |-> w, base |-> b] : b \in Bases \ {"none", "self"}, w \in {<<>>, <<"ref">>, <<"reflife">>, <<"ref", "ref">>, <<"ref", "paren">>, <<"paren", "ref">>} }
             \cup { [wrap |-> <<>>, base |-> "none"], [wrap |-> <<>>, base |-> "self"], [wrap |-> <<"ref">>, base |-> "self"] }
-DepsCases == { [kind |-> "deps", mode |-> m, ty |-> ty, nodeps |-> nd, second |-> s]
-               : m \in {"fn", "mod", "impl"}, ty \in TyShapes, nd \in BOOLEAN,
+\* (ndform: how the no_deps option is written: absent / bare for FALSE / TRUE, or in the `= value` form)
+DepsCases == { [kind |-> "deps", mode |-> m, ty |-> ty, nodeps |-> nd, ndform |-> nf, second |-> s]
+               : m \in {"fn", "mod", "impl"}, ty \in TyShapes, nd \in BOOLEAN, nf \in {"short", "eq"},
                  s \in { [wrap |-> <<"ref">>, base |-> "generic"], [wrap |-> <<"ref">>, base |-> "ident"] } }
-DepsCasesOK == { c \in DepsCases : (c.mode = "impl" => ~c.nodeps) /\ (c.mode = "fn" => c.second.base = "generic") }
+DepsCasesOK == { c \in DepsCases : (c.mode = "impl" => ~c.nodeps /\ c.ndform = "short") /\ (c.mode = "fn" => c.second.base = "generic") }
 
 \* (d) trait shapes: parameter pattern of the method x delegation kind x extra trait item
 TraitPats == {"ident", "wild", "tuple", "mut", "none"}
